@@ -440,12 +440,16 @@ void run_static(Ctx &c, StaticCase<K> &sc, char which, Extra &extra) {
 /// the previous one, queried at the top end of the key range. The number of segments (and with it the length of every
 /// succinct directory derived from it) changes by about one per step, so the sweep passes through all residues modulo 64,
 /// and often a multiple of 4096 - the places where block-wise directories have their last-block special cases.
+template<class T, class = void> struct HasWl : std::false_type {};
+template<class T> struct HasWl<T, std::void_t<decltype(std::declval<const T &>().wl()), decltype(std::declval<const T &>().high_zeros())>> : std::true_type {};
+
 template<class K, class Idx, size_t Eps>
 void run_sweep(Ctx &c, char which) {
     using D = UDom<K>;
     Rng &r = c.rng;
     const uint64_t R = D::R;
     size_t n0 = 150000 + r.below(c.thorough() ? 600000 : 300000);
+    if (HasWl<Idx>::value) n0 += 250000; // the select directories over an Elias-Fano high vector change construction at 100000 bits
     std::vector<K> master(n0);
     {
         uint64_t cur = r.below(1000);
@@ -465,7 +469,7 @@ void run_sweep(Ctx &c, char which) {
     };
     c.predump();
     const int steps = c.thorough() ? 140 : 70;
-    uint64_t queries = 0, segs_total = 0, mod64 = 0;
+    uint64_t queries = 0, segs_total = 0, mod64 = 0, c_universe_steps = 0;
     set_threads(1);
     for (int k = 0; k < steps && len > 1000; ++k) {
         lens.push_back(len);
@@ -501,6 +505,59 @@ void run_sweep(Ctx &c, char which) {
         }
         if (c.violations_in_case >= 3) break;
         len -= 1 + r.below(9);
+    }
+    // Universe sweep (indexes that expose the low-bit width of an Elias-Fano code, i.e. EfProbe): only the LAST key moves, in
+    // units of one Elias-Fano bucket, so that the number of buckets crosses the next multiple of 4096 (and every residue
+    // modulo 64 on the way) - the block size of the select directories over the high bit vector.
+    if constexpr (HasWl<Idx>::value) {
+        size_t n1 = n0;
+        std::vector<K> keys(master.begin(), master.begin() + n1);
+        uint64_t wl = 0, usize = 0;
+        {
+            std::unique_ptr<Idx> probe(new Idx(keys.begin(), keys.end()));
+            wl = probe->wl();
+            usize = probe->ef_size();
+        }
+        uint64_t unit = uint64_t(1) << std::min<uint64_t>(wl, 62);
+        uint64_t buckets = (usize >> wl) + 1;
+        uint64_t to_boundary = 4096 - (buckets % 4096);
+        // the last 2*Eps+4 keys move as one block of consecutive integers: too many ranks at one place to be absorbed by the
+        // segment before them, so the block starts the last segment and its position decides the Elias-Fano universe
+        const size_t B = std::min<size_t>(2 * Eps + 4, n1 / 2);
+        uint64_t base_last = D::to_u(keys[n1 - B - 1]) + 1;
+        uint64_t start = to_boundary > 70 ? to_boundary - 70 : 0;
+        uint64_t off = start;
+        int usteps = c.thorough() ? 120 : 60;
+        for (int k = 0; k < usteps && c.violations_in_case < 3; ++k) {
+            if (base_last + B + 2 >= R || off > (R - base_last - B - 2) / std::max<uint64_t>(unit, 1)) break; // no room left in the key type
+            for (size_t j = 0; j < B; ++j) keys[n1 - B + j] = D::to_key(base_last + off * unit + j);
+            std::unique_ptr<Idx> idx(new Idx(keys.begin(), keys.end()));
+            for (size_t i = n1 > 60 ? n1 - 60 : 0; i < n1; ++i) {
+                for (K q : {keys[i], K(keys[i] > KT<K>::lowest() ? key_pred(keys[i]) : keys[i]), K(keys[i] < key_maxvalid<K>() ? key_succ(keys[i]) : keys[i])}) {
+                    if (which == 'P' && !std::binary_search(keys.begin(), keys.end(), q)) continue;
+                    auto res = idx->search(q);
+                    ++queries;
+                    size_t expect = 0;
+                    const char *bad = which == 'B' ? judge_search(keys, q, res, Eps, true, true, true, expect) : nullptr;
+                    if (bad) {
+                        c.violation(bad, J().num("q", q).num("lo", res.lo).num("hi", res.hi).num("pos", res.pos).num("expected_lower_bound", expect)
+                                             .num("n", n1).num("eps", Eps).num("universe_sweep_step", k).num("last_key_offset_in_buckets", off));
+                        break;
+                    }
+                }
+            }
+            ++c_universe_steps;
+            {
+                size_t z = idx->high_zeros(), hb = idx->high_bits();
+                size_t d = (4096 - z % 4096) % 4096, spare = (64 - hb % 64) % 64;
+                if (getenv("VF_DEBUG_SWEEP")) fprintf(stderr, "usweep last=%llu base_last=%llu efsize=%zu k=%d off=%llu wl=%zu z=%zu d=%zu hb=%zu spare=%zu (probe wl=%llu buckets=%llu to_boundary=%llu)\n", (unsigned long long) D::to_u(keys.back()), (unsigned long long) base_last, idx->ef_size(), k, (unsigned long long) off, idx->wl(), z, d, hb, spare, (unsigned long long) wl, (unsigned long long) buckets, (unsigned long long) to_boundary);
+                if (d <= 62) c.count("universe_sweep_bucket_count_within_62_below_multiple_of_4096");
+                if (d <= 62 && spare >= d + 1 && hb >= 100000) c.count("universe_sweep_last_block_geometry");
+                c.maxc("universe_sweep_max_high_bits", hb);
+            }
+            off += 1 + r.below(3);
+        }
+        c.count("universe_sweep_indexes_built", c_universe_steps);
     }
     c.count("sweep_indexes_built", lens.size());
     c.count("queries", queries);
